@@ -191,3 +191,65 @@ func BadMatchNotDropped(trav gdbi.Traveler, stmt *gripql.HasExpression) bool {
 	}
 	return false
 }
+
+// ---- cast helpers ----
+
+func pairOK(val, condVal interface{}) (float64, float64, bool) {
+	a, err := cast.ToFloat64E(val)
+	if err != nil {
+		return 0, 0, false
+	}
+	b, err := cast.ToFloat64E(condVal)
+	if err != nil {
+		return 0, 0, false
+	}
+	return a, b, true
+}
+
+// pairUnsound reports success although the second cast may have failed.
+func pairUnsound(val, condVal interface{}) (float64, float64, bool) {
+	a, err := cast.ToFloat64E(val)
+	if err != nil {
+		return 0, 0, false
+	}
+	b, _ := cast.ToFloat64E(condVal)
+	return a, b, true
+}
+
+func OkCondHelper(trav gdbi.Traveler, cond *gripql.HasCondition) bool {
+	val := jsonpath.TravelerPathLookup(trav, cond.Key)
+	condVal := cond.Value.AsInterface()
+	switch cond.Condition {
+	case gripql.Condition_LTE:
+		v, c, ok := pairOK(val, condVal)
+		return ok && v <= c
+	case gripql.Condition_GT:
+		// operands swapped, operator mirrored
+		v, c, ok := pairOK(val, condVal)
+		return ok && c < v
+	}
+	return false
+}
+
+func BadCondHelperUnsound(trav gdbi.Traveler, cond *gripql.HasCondition) bool {
+	val := jsonpath.TravelerPathLookup(trav, cond.Key)
+	condVal := cond.Value.AsInterface()
+	switch cond.Condition {
+	case gripql.Condition_LTE:
+		v, c, ok := pairUnsound(val, condVal)
+		return ok && v <= c
+	}
+	return false
+}
+
+// BadCondHelperNoFlag ignores the helper's success flag.
+func BadCondHelperNoFlag(trav gdbi.Traveler, cond *gripql.HasCondition) bool {
+	val := jsonpath.TravelerPathLookup(trav, cond.Key)
+	condVal := cond.Value.AsInterface()
+	switch cond.Condition {
+	case gripql.Condition_LT:
+		v, c, _ := pairOK(val, condVal)
+		return v < c
+	}
+	return false
+}
